@@ -42,8 +42,8 @@ fn gen_plan(ch: &mut Ch) -> Plan {
     let body_len = nblocks * size - ch.below(size as u64, "e.tail") as usize;
     let path = vec![seg("obs")];
     let mut resources = BTreeMap::new();
-    resources.insert(path.clone(), ResSpec { lens: vec![body_len], opts: vec![], up_reply_lens: vec![0], own_block2: None });
-    resources.insert(vec![seg("noise")], ResSpec { lens: vec![3], opts: vec![], up_reply_lens: vec![0], own_block2: None });
+    resources.insert(path.clone(), ResSpec { lens: vec![body_len], opts: vec![], up_reply_lens: vec![0], own_block2: None, code: None });
+    resources.insert(vec![seg("noise")], ResSpec { lens: vec![3], opts: vec![], up_reply_lens: vec![0], own_block2: None, code: None });
     // idle gaps between consecutive arrivals of the observed transfer
     let nex = (body_len + size - 1) / size;
     let mut gaps = Vec::new();
@@ -87,13 +87,19 @@ fn gen_plan(ch: &mut Ch) -> Plan {
     t.gaps = gaps;
     t.pre_gap_ns = 10 * MS;
     let lat = NetCfg { base_ms: LAT_MS, jitter: false, ..Default::default() };
+    // a download may see its requests duplicated by the network (the model
+    // works on arrival times, so duplicates are just more touches)
+    let mut obs_net = lat.clone();
+    if !upload && ch.chance(1, 3, "e.dup-on-observed-link") {
+        obs_net.dup_pm = 150 + ch.below(300, "e.dup_pm");
+    }
     let mut clients = vec![ClientSpec {
         ep: 100,
         // the timeout only matters for lost messages; there are none here
         lanes: vec![LaneSpec { transfers: vec![t], timeout_ms: 400 * 24 * 3600 * 1000 }],
         mid0: ch.below(65536, "e.mid0") as u16,
         tok_seed: ch.below(1 << 40, "e.tok"),
-        net: lat.clone(),
+        net: obs_net,
         via_proxy: false,
     }];
     // noise on other keys, spread over the observed transfer's lifetime
@@ -131,6 +137,14 @@ fn gen_plan(ch: &mut Ch) -> Plan {
             .map(|i| {
                 let m = methods[ch.below(methods.len() as u64, "e.som.method") as usize];
                 let pl: Vec<u8> = if m == 1 || m == 4 || m == 5 { vec![] } else { vec![0x33; 5] };
+                // ... or the same method on the path with a trailing empty
+                // segment ("/obs/" next to "/obs"): another key as well
+                if ch.chance(1, 3, "e.som.trailing-slash") {
+                    let p2 = vec![seg("obs"), seg("")];
+                    let own = if upload { 3u8 } else { 1u8 };
+                    let pl2: Vec<u8> = if upload { vec![0x44; 4] } else { vec![] };
+                    return build_request(own, MessageType::NonConfirmable, 41000 + i as u16, &[0xEF, i as u8], &p2, &[], None, None, &pl2);
+                }
                 build_request(m, MessageType::NonConfirmable, 40000 + i as u16, &[0xEE, i as u8], &path, &[], None, None, &pl)
             })
             .collect();
